@@ -10,6 +10,18 @@ Local Open Scope N_scope.
 (* well-formed values of a type: shape only                                                   *)
 (* ------------------------------------------------------------------------------------------ *)
 
+(* an OBJECT IDENTIFIER value has at least two arcs, the first 0, 1 or 2, the second below 40 unless
+   the first is 2 (X.680 32, X.690 8.19.4) *)
+Definition oid_wf (arcs: list N) : bool :=
+  match arcs with
+  | first :: second :: _ =>
+      N.eqb first 2 || (N.leb second 39 && (N.eqb first 0 || N.eqb first 1))
+  | _ => false
+  end.
+
+(* a REAL value of the model proper (RFloat stands for values that went through a Python float) *)
+Definition real_wf (r: real) : bool := match r with RFloat => false | _ => true end.
+
 (* [e]: is the valueless CHOICE object (VChoice (length alts) VNull) tolerated, and only directly
    under a tag ([tg]): the decoders that support the indefinite form return it for  a0 80 00 00 *)
 Fixpoint val_ofx (e: bool) (tg: bool) (T: ty) (v: val) {struct T} : bool :=
@@ -20,8 +32,8 @@ Fixpoint val_ofx (e: bool) (tg: bool) (T: ty) (v: val) {struct T} : bool :=
   | TOcts => match v with VOcts _ => true | _ => false end
   | TStr _ => match v with VOcts _ | VChars _ => true | _ => false end
   | TNull => match v with VNull => true | _ => false end
-  | TOid => match v with VOid _ => true | _ => false end
-  | TReal => match v with VReal _ => true | _ => false end
+  | TOid => match v with VOid a => oid_wf a | _ => false end
+  | TReal => match v with VReal r => real_wf r | _ => false end
   | TAny => match v with VAny _ | VOcts _ => true | _ => false end
   | TSeq fs | TSet fs =>
       match v with
@@ -277,7 +289,9 @@ Section Good.
   Definition scalar_fits (T: ty) (v: val) : bool :=
     match base_of T, v with
     | TBool, (VBool _ | VInt _) | (TInt | TEnum), VInt _ | TBits, VBits _ | (TOcts | TStr _), VOcts _
-    | TNull, VNull | TOid, VOid _ | TReal, VReal _ | TAny, VAny _ => true
+    | TNull, VNull | TAny, VAny _ => true
+    | TOid, VOid a => oid_wf a
+    | TReal, VReal r => real_wf r
     | _, _ => false
     end.
 
@@ -289,7 +303,7 @@ Section Good.
     unfold scalar_fits in Hf. split.
     - destruct (base_of T); destruct v; cbn [cdepth]; try lia; discriminate.
     - intros _. unfold vo. rewrite val_ofx_base.
-      destruct (base_of T); destruct v; try discriminate; reflexivity.
+      destruct (base_of T); destruct v; try discriminate; try reflexivity; exact Hf.
   Qed.
 End Good.
 
@@ -297,6 +311,9 @@ Ltac binv H := let a := fresh "a" in let s1 := fresh "s" in let Ha := fresh "Ha"
   apply resume_pbind_inv in H; destruct H as (a & s1 & Ha & H).
 
 Ltac dead H := solve [cbn [resume] in H; discriminate H].
+
+Lemma lift_inv {A} (r: res A) s a s' : resume (lift r) s = inr (Ok a, s') -> r = Ok a.
+Proof. destruct r; cbn [lift resume]; intros H; inversion H; subst; reflexivity. Qed.
 
 Section Scalars.
   Variable c : codec.
@@ -336,18 +353,44 @@ Section Scalars.
     binv H. destruct a; [|dead H]. apply (create_good c n _ _ _ _ _ _ _ ae sfun Hf H).
   Qed.
 
-  Lemma oid_good n T ts l s d s' ae sfun : (forall a, scalar_fits T (VOid a) = true) ->
+  Lemma dec_oid_wf b a : dec_oid b = Ok a -> oid_wf a = true.
+  Proof.
+    unfold dec_oid. destruct b as [|o b]; [discriminate|].
+    destruct (oid_subids (S (length (o :: b))) (o :: b)) as [[|x r]|e]; cbn [bind]; try discriminate.
+    destruct (N.leb_spec x 39) as [H1|H1].
+    - intros H. inversion H; subst. cbn [oid_wf]. apply N.leb_le in H1. rewrite H1. reflexivity.
+    - destruct (N.leb_spec x 79) as [H2|H2]; intros H; inversion H; subst; cbn [oid_wf]; [|reflexivity].
+      assert (Hle: N.leb (x - 40) 39 = true) by (apply N.leb_le; lia). rewrite Hle. reflexivity.
+  Qed.
+
+  Lemma dec_real_wf b r : dec_real b = Ok r -> real_wf r = true.
+  Proof.
+    unfold dec_real. destruct b as [|fo chunk]; [intros H; inversion H; reflexivity|].
+    destruct (negb (N.eqb (N.land fo 128) 0)).
+    - destruct chunk as [|c0 crest]; [discriminate|].
+      destruct (N.eqb (N.land fo 3 + 1) 4).
+      + destruct (firstn (N.to_nat c0) crest); [discriminate|]. destruct (skipn (N.to_nat c0) crest); [discriminate|].
+        destruct (N.ltb 2 (N.land (N.shiftr fo 4) 3)); [discriminate|]. intros H; inversion H; reflexivity.
+      + destruct (firstn (N.to_nat (N.land fo 3 + 1)) (c0 :: crest)); [discriminate|].
+        destruct (skipn (N.to_nat (N.land fo 3 + 1)) (c0 :: crest)); [discriminate|].
+        destruct (N.ltb 2 (N.land (N.shiftr fo 4) 3)); [discriminate|]. intros H; inversion H; reflexivity.
+    - destruct (negb (N.eqb (N.land fo 64) 0)).
+      + intros H; inversion H. destruct (N.eqb (N.land fo 1) 0); reflexivity.
+      + destruct chunk; discriminate.
+  Qed.
+
+  Lemma oid_good n T ts l s d s' ae sfun : (forall a, oid_wf a = true -> scalar_fits T (VOid a) = true) ->
     resume (dec_oid_v lf (Some T) ts l) s = inr (Ok d, s') -> good c n (STy T) ae sfun d.
   Proof.
     intros Hf H. unfold dec_oid_v in H. destruct (negb (tag0_simple ts)); [dead H|].
-    binv H. binv H. apply (create_good c n _ _ _ _ _ _ _ ae sfun (Hf _) H).
+    binv H. binv H. apply lift_inv in Ha0. apply (create_good c n _ _ _ _ _ _ _ ae sfun (Hf _ (dec_oid_wf _ _ Ha0)) H).
   Qed.
 
-  Lemma real_good n T ts l s d s' ae sfun : (forall a, scalar_fits T (VReal a) = true) ->
+  Lemma real_good n T ts l s d s' ae sfun : (forall a, real_wf a = true -> scalar_fits T (VReal a) = true) ->
     resume (dec_real_v lf (Some T) ts l) s = inr (Ok d, s') -> good c n (STy T) ae sfun d.
   Proof.
     intros Hf H. unfold dec_real_v in H. destruct (negb (tag0_simple ts)); [dead H|].
-    binv H. binv H. apply (create_good c n _ _ _ _ _ _ _ ae sfun (Hf _) H).
+    binv H. binv H. apply lift_inv in Ha0. apply (create_good c n _ _ _ _ _ _ _ ae sfun (Hf _ (dec_real_wf _ _ Ha0)) H).
   Qed.
 
   Lemma collector_good n sp len s d s' ae :
@@ -863,9 +906,6 @@ Qed.
 Lemma forallb_map' {A B} (f: B -> bool) (g: A -> B) : forall l, forallb f (map g l) = forallb (fun x => f (g x)) l.
 Proof. induction l as [|x l IH]; [reflexivity|]. cbn [map forallb]. rewrite IH. reflexivity. Qed.
 
-Lemma lift_inv {A} (r: res A) s a s' : resume (lift r) s = inr (Ok a, s') -> r = Ok a.
-Proof. destruct r; cbn [lift resume]; intros H; inversion H; subst; reflexivity. Qed.
-
 Section Record.
   Variable c : codec.
   Variable rec : spec -> tagset -> option (option N) -> bool -> bool -> proc dval.
@@ -1081,6 +1121,9 @@ End Choice.
 Lemma base_of_not_wrapped : forall T, is_wrapped (base_of T) = false.
 Proof. induction T using ty_ind'; cbn [base_of is_wrapped]; auto. Qed.
 
+Lemma resume_seekback {A} d (k: proc A) s : resume (SeekBack d k) s = resume k (setpos s (pos s - d)).
+Proof. reflexivity. Qed.
+
 Section Call.
   Variable c : codec.
   Variable rec : spec -> tagset -> option (option N) -> bool -> bool -> proc dval.
@@ -1093,14 +1136,17 @@ Section Call.
   Proof.
     induction k as [|k IH]; intros last s d s' Hl H; cbn [raw_loop] in H; [dead H|].
     binv H. pose proof (Hrec _ _ _ _ _ _ _ _ (pre_none c ts) Ha) as Hg.
-    destruct a as [Tc vc| |b| |].
-    - apply (IH _ _ _ _ (or_intror (conj ltac:(discriminate) Hg)) H).
-    - destruct Hl as [->|[Hne Hgl]]; [dead H|].
-      assert (Hd: d = last) by (destruct last; cbn [resume] in H; inversion H; reflexivity). subst d.
-      apply (good_flags c _ _ _ _ _ _ Hne Hgl).
-    - apply (IH _ _ _ _ (or_intror (conj ltac:(discriminate) Hg)) H).
-    - apply (IH _ _ _ _ (or_intror (conj ltac:(discriminate) Hg)) H).
-    - apply (IH _ _ _ _ (or_intror (conj ltac:(discriminate) Hg)) H).
+    assert (Hnext: a <> DEoo -> resume (raw_loop rec sp ts k a) s0 = inr (Ok d, s') -> good c lf sp ae sfun d).
+    { intros Hne H'. apply (IH a s0 d s'); [right; split; [exact Hne|exact Hg]|exact H']. }
+    destruct a as [Tc vc| |b| |]; try (apply Hnext; [discriminate|exact H]).
+    destruct Hl as [->|[Hne Hgl]]; [dead H|].
+    assert (Hd: d = last) by (destruct last; cbn [resume] in H; inversion H; reflexivity). subst d.
+    apply (good_flags c _ _ _ _ _ _ Hne Hgl).
+  Qed.
+
+  Lemma good_noeoo n sp ae sfun d : good c n sp false false d -> good c n sp ae sfun d.
+  Proof.
+    destruct sp as [|T0|mp]; cbn [good]; auto; destruct d; cbn [gd]; auto; discriminate.
   Qed.
 
   Lemma raw_good sp ts len ae sfun s d s' :
@@ -1108,6 +1154,362 @@ Section Call.
   Proof.
     intros H. unfold dec_raw in H. destruct sfun; [apply (collector_good c lf lf _ _ _ _ _ ae H)|].
     destruct len as [l|].
-    - pose proof (Hrec _ _ _ _ _ _ _ _ (pre_none c ts) H) as Hg.
-      assert (Hne: d <> DEoo).
-      { intros ->. destruct sp; cbn [good gd] in Hg; try discriminate. Abort.
+    - apply good_noeoo. apply (Hrec _ _ _ _ _ _ _ _ (pre_none c ts) H).
+    - apply (raw_loop_good _ _ ae false _ _ _ _ _ (or_introl eq_refl) H).
+  Qed.
+
+  Lemma dec_value_good cd fl T ts len ae sfun s d s' :
+    compat (key_of T) cd = true -> ts <> [] -> (len = None -> support_indef c = true) ->
+    resume (dec_value rec lf cd fl (Some T) ts len sfun) s = inr (Ok d, s') -> good c (S lf) (STy T) ae sfun d.
+  Proof.
+    intros Hc Hts Hind H. unfold key_of in Hc.
+    pose proof (base_of_not_wrapped T) as Hnw.
+    destruct (base_of T) eqn:HB; try discriminate Hnw; destruct cd; try discriminate Hc;
+      unfold dec_value in H; cbv beta iota zeta in H; rewrite ?HB in H; destruct len as [l|]; try dead H.
+    all: try (destruct (negb (tag0_cons ts)); [dead H|]; destruct sfun; [apply (collector_good c lf (S lf) _ _ _ _ _ ae H)|]).
+    all: try (destruct sfun; [apply (collector_good c lf (S lf) _ _ _ _ _ ae H)|]).
+    all: try solve [eapply integer_good; [|exact H]; intros; unfold scalar_fits; rewrite HB; reflexivity].
+    all: try solve [eapply bool_cer_good; [|exact H]; intros; unfold scalar_fits; rewrite HB; reflexivity].
+    all: try solve [eapply null_good; [|exact H]; intros; unfold scalar_fits; rewrite HB; reflexivity].
+    all: try solve [eapply oid_good; [|exact H]; intros; unfold scalar_fits; rewrite HB; assumption].
+    all: try solve [eapply real_good; [|exact H]; intros; unfold scalar_fits; rewrite HB; assumption].
+    all: try solve [eapply octets_good; [|exact H]; intros; unfold scalar_fits; rewrite HB; reflexivity].
+    all: try solve [unfold dec_octets_indef in H; eapply octets_indef_loop_good; [|exact H]; intros; unfold scalar_fits; rewrite HB; reflexivity].
+    all: try solve [eapply bits_good; [|exact H]; intros; unfold scalar_fits; rewrite HB; reflexivity].
+    all: try solve [eapply bits_indef_good; [|exact H]; intros; unfold scalar_fits; rewrite HB; reflexivity].
+    all: try solve [eapply any_good; [|exact H]; intros; unfold scalar_fits; rewrite HB; reflexivity].
+    all: try solve [eapply any_indef_good; [|exact H]; intros; unfold scalar_fits; rewrite HB; reflexivity].
+    all: try solve [apply (listof_good c rec lf Hrec (S lf) T _ _ ae false _ _ _ (or_introl HB) H)].
+    all: try solve [apply (listof_good c rec lf Hrec (S lf) T _ _ ae false _ _ _ (or_intror HB) H)].
+    all: try solve [apply (record_good c rec lf Hrec (S lf) T _ false _ ae false _ _ _ HB H)].
+    all: try solve [apply (record_good c rec lf Hrec (S lf) T _ true _ ae false _ _ _ HB H)].
+    all: try solve [apply (choice_good c rec lf Hrec T _ ts _ ae false _ _ _ HB Hts Hind H)].
+  Qed.
+
+  Lemma run_value_any (k: proc dval) len s d s' :
+    resume (match len with
+            | None => k
+            | Some l => let! p0 := tell in let! v := k in let! p1 := tell in
+                        if N.eqb (N.of_nat (p1 - p0)) l then Ret v else Raise EMalformed
+            end) s = inr (Ok d, s') -> exists s0 s1, resume k s0 = inr (Ok d, s1).
+  Proof.
+    destruct len as [l|]; intros H; [|eauto].
+    binv H. binv H. binv H. destruct (N.eqb (N.of_nat (a1 - a)) l); [|dead H].
+    cbn [resume] in H. inversion H; subst. eauto.
+  Qed.
+
+  Lemma good_sty_smap n mp T ae sfun d : in_tmap mp T -> good c n (STy T) ae sfun d -> good c n (SMap mp) ae sfun d.
+  Proof. intros Hin. cbn [good]. destruct d; cbn [gd]; auto. intros [-> Hd]. auto. Qed.
+
+  Lemma tm_get_in mp ts T : tm_get mp ts = Ok (Some T) -> in_tmap mp T.
+  Proof.
+    unfold tm_get. destruct (tm_postponed mp); [discriminate|].
+    destruct (tm_find ts (tm_present mp)) as [t|] eqn:E.
+    - intros H. inversion H; subst. left. apply (assoc_In _ _ _ E).
+    - destruct (tm_default mp) as [d0|] eqn:Ed; [|discriminate]. destruct (tm_mem ts (tm_skip mp)); [discriminate|].
+      intros H. inversion H; subst. right. exact Ed.
+  Qed.
+
+  Lemma dispatch_good sp ts len ae sfun s d s' :
+    ts <> [] -> (len = None -> support_indef c = true) ->
+    resume (dispatch c rec lf sp ts len sfun) s = inr (Ok d, s') -> good c (S lf) sp ae sfun d.
+  Proof.
+    intros Hts Hind H. unfold dispatch in H. cbv zeta in H.
+    assert (Hfail: forall s d s',
+      resume (match match ts with
+                    | t :: _ => if tcon t && negb (cls_eqb (tcls t) Univ) then Some (dec_raw rec lf sp ts len sfun) else None
+                    | [] => None end with
+              | Some k => match len with
+                          | None => k
+                          | Some l => let! p0 := tell in let! v := k in let! p1 := tell in
+                                      if N.eqb (N.of_nat (p1 - p0)) l then Ret v else Raise EMalformed
+                          end
+              | None => Raise EMalformed end) s = inr (Ok d, s') -> good c (S lf) sp ae sfun d).
+    { clear H. intros s1 d1 s1' H.
+      destruct ts as [|t r]; [dead H|]. destruct (tcon t && negb (cls_eqb (tcls t) Univ)); [|dead H].
+      apply run_value_any in H. destruct H as (s2 & s3 & H).
+      apply (good_mono c lf (S lf)); [lia|]. apply (raw_good _ _ _ ae sfun _ _ _ H). }
+    destruct sp as [|T|mp].
+    - exact I.
+    - destruct (tagset_eqb ts (tagset_of' T) || tm_contains (tagmap_of T) ts); [|apply (Hfail _ _ _ H)].
+      destruct (tm_postponed (tagmap_of T)); [dead H|].
+      destruct (by_type c T) as [[cd fl]|] eqn:Eby; [|apply (Hfail _ _ _ H)].
+      apply run_value_any in H. destruct H as (s2 & s3 & H).
+      apply (dec_value_good _ _ _ _ _ ae sfun _ _ _ (by_type_compat _ _ _ _ Eby) Hts Hind H).
+    - binv H. apply lift_inv in Ha. destruct a as [T|]; [|apply (Hfail _ _ _ H)].
+      destruct (by_type c T) as [[cd fl]|] eqn:Eby; [|apply (Hfail _ _ _ H)].
+      apply run_value_any in H. destruct H as (s2 & s3 & H).
+      apply (good_sty_smap _ _ _ _ _ _ (tm_get_in _ _ _ Ha)).
+      apply (dec_value_good _ _ _ _ _ ae sfun _ _ _ (by_type_compat _ _ _ _ Eby) Hts Hind H).
+  Qed.
+
+  Lemma read_length_indef s o s' : resume (read_length c) s = inr (Ok o, s') -> o = None -> support_indef c = true.
+  Proof.
+    unfold read_length. intros H Ho. binv H. destruct (N.ltb a 128); [cbn [resume] in H; inversion H; subst; discriminate|].
+    destruct (N.eqb a 128).
+    - destruct (support_indef c); [reflexivity|dead H].
+    - binv H. cbn [resume] in H. inversion H; subst. discriminate.
+  Qed.
+
+  Lemma body_good sp ts rs ae sfun s d s' : pre c ts rs ->
+    resume (dec_body c rec lf sp ts rs ae sfun) s = inr (Ok d, s') -> good c (S lf) sp ae sfun d.
+  Proof.
+    intros [Hp1 Hp2] H. unfold dec_body in H. cbv zeta in H.
+    assert (Hmain: forall s d s',
+      resume (Mark match rs with
+                   | Some len => dispatch c rec lf sp ts len sfun
+                   | None => let! t := read_tag lf in let! len := read_length c in dispatch c rec lf sp (t :: ts) len sfun
+                   end) s = inr (Ok d, s') -> good c (S lf) sp ae sfun d).
+    { clear H. intros s1 d1 s1' H. cbn [resume] in H. destruct rs as [len|].
+      - destruct Hp1 as [Hp1|Hp1]; [discriminate|].
+        apply (dispatch_good _ _ _ ae sfun _ _ _ Hp1 (fun E => Hp2 (f_equal Some E)) H).
+      - binv H. binv H.
+        assert (Hne: a :: ts <> []) by discriminate.
+        apply (dispatch_good _ _ _ ae sfun _ _ _ Hne (read_length_indef _ _ _ Ha0) H). }
+    destruct (ae && support_indef c) eqn:Eae; [|apply (Hmain _ _ _ H)].
+    binv H. 
+    assert (Hae: ae = true) by (destruct ae; [reflexivity|discriminate]).
+    destruct a as [|x a]; try (rewrite resume_seekback in H; apply (Hmain _ _ _ H)).
+    destruct x; try (rewrite resume_seekback in H; apply (Hmain _ _ _ H)).
+    destruct a as [|y a]; try (rewrite resume_seekback in H; apply (Hmain _ _ _ H)).
+    destruct y; try (rewrite resume_seekback in H; apply (Hmain _ _ _ H)).
+    destruct a; try (rewrite resume_seekback in H; apply (Hmain _ _ _ H)).
+    cbn [resume] in H. inversion H; subst. destruct sp; cbn [good gd]; auto.
+  Qed.
+End Call.
+
+Theorem call_good c : forall fuel, rec_good c fuel (dec_call c fuel).
+Proof.
+  induction fuel as [|f IH]; intros sp ts rs ae sfun s d s' Hpre H.
+  - cbn [dec_call resume] in H. discriminate.
+  - cbn [dec_call] in H. apply (body_good c _ f IH _ _ _ ae sfun _ _ _ Hpre H).
+Qed.
+
+
+(* ------------------------------------------------------------------------------------------ *)
+(* main theorems: well-formedness                                                             *)
+(* ------------------------------------------------------------------------------------------ *)
+
+(* whatever input is accepted under a guiding type T yields a value object of exactly that type, and
+   the unread tail is a suffix of the input; for T in the fragment the value is well-formed, except
+   that a decoder supporting the indefinite form may return a valueless tagged CHOICE *)
+Theorem accepted_is_well_formed_gen : forall c fuel T b d tl,
+  decode_with c fuel (Some T) b = Ok (d, tl) ->
+  exists v, d = DV T v
+            /\ (frag T = true -> val_ofx (support_indef c) false T v = true)
+            /\ exists used, b = used ++ tl.
+Proof.
+  intros c fuel T b d tl H. pose proof (decode_with_suffix _ _ _ _ _ _ H) as Hsuf.
+  unfold decode_with, run_complete in H.
+  destruct (resume (dec_item c fuel (Some T)) (mkStream b 0 true 0)) as [[p s]|[[d0|e] s]] eqn:E; try discriminate.
+  inversion H; subst. clear H. unfold dec_item in E.
+  pose proof (call_good c fuel _ _ _ _ _ _ _ _ (pre_none c []) E) as Hg.
+  cbn [good] in Hg. destruct d as [T' v| |r| |]; cbn [gd] in Hg; try discriminate; try contradiction.
+  destruct Hg as [-> [_ Hv]]. exists v. auto.
+Qed.
+
+(* no tag directly over a CHOICE, at any depth *)
+Fixpoint no_tagged_choice (T: ty) : bool :=
+  match T with
+  | TSeq fs | TSet fs => forallb (fun f => no_tagged_choice (snd f)) fs
+  | TSeqOf t | TSetOf t => no_tagged_choice t
+  | TChoice alts => forallb no_tagged_choice alts
+  | TImp _ x | TExp _ x => match base_of x with TChoice _ => false | _ => true end && no_tagged_choice x
+  | _ => true
+  end.
+
+Lemma val_ofx_strict : forall T tg v, no_tagged_choice T = true ->
+  (tg = true -> match base_of T with TChoice _ => False | _ => True end) ->
+  val_ofx true tg T v = true -> forall tg', val_ofx false tg' T v = true.
+Proof.
+  induction T using ty_ind'; intros tg v Hn Htg Hv tg'; try exact Hv.
+  - (* SEQUENCE *)
+    destruct v; try discriminate Hv. rewrite val_ofx_seq in *. cbn [no_tagged_choice] in Hn.
+    clear Htg. revert fs0 Hv. induction H as [|[p t] fs Hh Ht IH]; intros [|ov vs] Hv; try discriminate; [reflexivity|].
+    cbn [forallb snd] in Hn. apply andb_prop in Hn. destruct Hn as [Hn1 Hn2].
+    cbn [fields_ok] in *. apply andb_prop in Hv. destruct Hv as [Hv1 Hv2]. rewrite (IH Hn2 _ Hv2), Bool.andb_true_r.
+    destruct ov; [|exact Hv1]. cbn [snd] in Hh. apply (Hh false v Hn1 ltac:(discriminate) Hv1).
+  - (* SET *)
+    destruct v; try discriminate Hv. rewrite val_ofx_set in *. cbn [no_tagged_choice] in Hn.
+    clear Htg. revert fs0 Hv. induction H as [|[p t] fs Hh Ht IH]; intros [|ov vs] Hv; try discriminate; [reflexivity|].
+    cbn [forallb snd] in Hn. apply andb_prop in Hn. destruct Hn as [Hn1 Hn2].
+    cbn [fields_ok] in *. apply andb_prop in Hv. destruct Hv as [Hv1 Hv2]. rewrite (IH Hn2 _ Hv2), Bool.andb_true_r.
+    destruct ov; [|exact Hv1]. cbn [snd] in Hh. apply (Hh false v Hn1 ltac:(discriminate) Hv1).
+  - (* SEQUENCE OF *)
+    destruct v; try discriminate Hv. cbn [val_ofx no_tagged_choice] in *.
+    rewrite forallb_forall in *. intros x Hx. apply (IHT false x Hn ltac:(discriminate) (Hv x Hx)).
+  - (* SET OF *)
+    destruct v; try discriminate Hv. cbn [val_ofx no_tagged_choice] in *.
+    rewrite forallb_forall in *. intros x Hx. apply (IHT false x Hn ltac:(discriminate) (Hv x Hx)).
+  - (* CHOICE *)
+    destruct v; try discriminate Hv. cbn [no_tagged_choice] in Hn.
+    assert (Htg': tg = false) by (destruct tg; [destruct (Htg eq_refl)|reflexivity]). subst tg. clear Htg.
+    cbn [val_ofx] in *. revert i Hv. induction H as [|a r Ha Hr IH]; intros [|i] Hv; try discriminate.
+    + cbn [forallb] in Hn. apply andb_prop in Hn. apply (Ha false v (proj1 Hn) ltac:(discriminate) Hv).
+    + cbn [forallb] in Hn. apply andb_prop in Hn. apply (IH (proj2 Hn) i Hv).
+  - (* IMPLICIT *)
+    cbn [no_tagged_choice] in Hn. apply andb_prop in Hn. destruct Hn as [Hb Hn]. cbn [val_ofx] in *.
+    apply (IHT true v Hn); [|exact Hv]. intros _. destruct (base_of T); try exact I; discriminate.
+  - (* EXPLICIT *)
+    cbn [no_tagged_choice] in Hn. apply andb_prop in Hn. destruct Hn as [Hb Hn]. cbn [val_ofx] in *.
+    apply (IHT true v Hn); [|exact Hv]. intros _. destruct (base_of T); try exact I; discriminate.
+Qed.
+
+(* the fragment on which acceptance implies strict well-formedness: DER (no indefinite form) takes
+   every tagged CHOICE; BER and CER take CHOICE types that are not directly tagged *)
+Definition frag_for (c: codec) (T: ty) : bool := frag T && (negb (support_indef c) || no_tagged_choice T).
+
+Theorem accepted_is_well_formed : forall c fuel T b d tl,
+  frag_for c T = true -> decode_with c fuel (Some T) b = Ok (d, tl) ->
+  exists v, d = DV T v /\ val_of T v = true /\ exists used, b = used ++ tl.
+Proof.
+  intros c fuel T b d tl HF H. apply andb_prop in HF. destruct HF as [HF Hc].
+  destruct (accepted_is_well_formed_gen _ _ _ _ _ _ H) as (v & -> & Hv & Hsuf). specialize (Hv HF).
+  exists v. split; [reflexivity|]. split; [|exact Hsuf]. unfold val_of.
+  destruct (support_indef c); [|exact Hv]. cbn [negb orb] in Hc.
+  apply (val_ofx_strict T false v Hc ltac:(discriminate) Hv).
+Qed.
+
+(* the same for the one-shot entry point with its own choice of fuel *)
+Corollary accepted_is_well_formed_decode : forall c T b d tl,
+  frag_for c T = true -> decode c (Some T) b = Ok (d, tl) ->
+  exists v, d = DV T v /\ val_of T v = true /\ exists used, b = used ++ tl.
+Proof. intros c T b d tl HF H. apply (accepted_is_well_formed c (dec_fuel (Some T) b) T b d tl HF H). Qed.
+
+(* ---------------- the stages, each a closed theorem ---------------- *)
+
+(* stage 1: simple types (and ANY) under any stack of tags *)
+Definition stage1_frag (T: ty) : bool :=
+  match base_of T with TSeq _ | TSet _ | TSeqOf _ | TSetOf _ | TChoice _ => false | _ => true end.
+
+(* stage 2: + SEQUENCE OF / SET OF, nested and tagged at will *)
+Fixpoint stage2_frag (T: ty) : bool :=
+  match T with
+  | TSeq _ | TSet _ | TChoice _ => false
+  | TSeqOf t | TSetOf t => stage2_frag t
+  | TImp _ x | TExp _ x => stage2_frag x
+  | _ => true
+  end.
+
+(* stage 3: + SEQUENCE with mandatory, OPTIONAL and DEFAULT members *)
+Fixpoint stage3_frag (T: ty) : bool :=
+  match T with
+  | TSet _ | TChoice _ => false
+  | TSeq fs => forallb (fun f => stage3_frag (snd f)) fs
+  | TSeqOf t | TSetOf t => stage3_frag t
+  | TImp _ x | TExp _ x => stage3_frag x
+  | _ => true
+  end.
+
+Lemma stage3_frag_for c : forall T, stage3_frag T = true -> frag_for c T = true.
+Proof.
+  intros T H. unfold frag_for. assert (HH: frag T = true /\ no_tagged_choice T = true /\ map_member_ok T = true
+                                           /\ match base_of T with TChoice _ => False | _ => True end).
+  { induction T using ty_ind'; try discriminate H; cbn [stage3_frag frag no_tagged_choice map_member_ok base_of] in *; auto.
+    - assert (Hall: forallb (fun f => frag (snd f)) fs = true /\ forallb (fun f => no_tagged_choice (snd f)) fs = true
+                    /\ forallb (fun f => map_member_ok (snd f)) fs = true).
+      { induction H0 as [|f fs Hf Hfs IH]; [auto|]. cbn [forallb] in *. apply andb_prop in H. destruct H as [H1 H2].
+        destruct (Hf H1) as (A & B & C & _). destruct (IH H2) as (A' & B' & C'). rewrite A, B, C, A', B', C'. auto. }
+      destruct Hall as (A & B & C). rewrite A, B, C, Bool.orb_true_r. auto.
+    - destruct (IHT H) as (A & B & _ & D). auto.
+    - destruct (IHT H) as (A & B & _ & D). auto.
+    - destruct (IHT H) as (A & B & _ & D). rewrite A, B. destruct (base_of T); auto; contradiction.
+    - destruct (IHT H) as (A & B & _ & D). rewrite A, B. destruct (base_of T); auto; contradiction. }
+  destruct HH as (A & B & _). rewrite A, B, Bool.orb_true_r. reflexivity.
+Qed.
+
+Lemma stage2_stage3 : forall T, stage2_frag T = true -> stage3_frag T = true.
+Proof. induction T using ty_ind'; cbn [stage2_frag stage3_frag]; auto; discriminate. Qed.
+
+Lemma stage1_stage2 : forall T, stage1_frag T = true -> stage2_frag T = true.
+Proof.
+  unfold stage1_frag. induction T using ty_ind'; cbn [stage2_frag base_of]; auto; discriminate.
+Qed.
+
+Theorem accepted_is_well_formed_stage3 : forall c fuel T b d tl,
+  stage3_frag T = true -> decode_with c fuel (Some T) b = Ok (d, tl) ->
+  exists v, d = DV T v /\ val_of T v = true /\ exists used, b = used ++ tl.
+Proof. intros c fuel T b d tl HF. apply accepted_is_well_formed. apply stage3_frag_for. exact HF. Qed.
+
+Theorem accepted_is_well_formed_stage2 : forall c fuel T b d tl,
+  stage2_frag T = true -> decode_with c fuel (Some T) b = Ok (d, tl) ->
+  exists v, d = DV T v /\ val_of T v = true /\ exists used, b = used ++ tl.
+Proof. intros c fuel T b d tl HF. apply accepted_is_well_formed_stage3. apply stage2_stage3. exact HF. Qed.
+
+Theorem accepted_is_well_formed_stage1 : forall c fuel T b d tl,
+  stage1_frag T = true -> decode_with c fuel (Some T) b = Ok (d, tl) ->
+  exists v, d = DV T v /\ val_of T v = true /\ exists used, b = used ++ tl.
+Proof. intros c fuel T b d tl HF. apply accepted_is_well_formed_stage2. apply stage1_stage2. exact HF. Qed.
+
+Print Assumptions accepted_is_well_formed_gen.
+Print Assumptions accepted_is_well_formed.
+Print Assumptions accepted_is_well_formed_stage1.
+
+(* ---------------- the hypotheses are satisfiable on inputs no encoder writes ---------------- *)
+
+Definition awf_ctx (n: N) : tag := mkTag Ctx false n.
+Definition awf_T : ty :=
+  TSeq [(Req, TInt); (Opt, TExp (awf_ctx 0) (TChoice [TBool; TOcts])); (Def (VInt 3), TImp (awf_ctx 1) TInt);
+        (Opt, TChoice [TNull; TImp (awf_ctx 5) TOid]); (Req, TSetOf (TStr 12))].
+(* BER: indefinite outer length, a padded INTEGER, long-form lengths, a segmented OCTET STRING as the
+   CHOICE alternative, an absent DEFAULT member, trailing octets *)
+Definition awf_ber : bytes :=
+  [48;128; 2;2;0;5; 160;129;11; 36;128; 4;1;7; 4;2;8;9; 0;0; 133;2;42;3; 49;129;4; 12;2;104;105; 0;0; 99].
+Definition awf_der : bytes := [48;20; 2;2;0;5; 160;3;1;1;255; 129;1;7; 5;0; 49;4;12;2;104;105].
+
+Example accepted_is_well_formed_witness :
+  frag awf_T = true /\ frag_for DER awf_T = true
+  /\ decode BER (Some awf_T) awf_ber
+     = Ok (DV awf_T (VRec [Some (VInt 5); Some (VChoice 1 (VOcts [7; 8; 9])); None;
+                           Some (VChoice 1 (VOid [1; 2; 3])); Some (VList [VOcts [104; 105]])]), [99])
+  /\ decode DER (Some awf_T) awf_der
+     = Ok (DV awf_T (VRec [Some (VInt 5); Some (VChoice 0 (VBool true)); Some (VInt 7);
+                           Some (VChoice 0 VNull); Some (VList [VOcts [104; 105]])]), [])
+  /\ val_of awf_T (VRec [Some (VInt 5); Some (VChoice 1 (VOcts [7; 8; 9])); None;
+                         Some (VChoice 1 (VOid [1; 2; 3])); Some (VList [VOcts [104; 105]])]) = true.
+Proof. repeat split; vm_compute; reflexivity. Qed.
+
+Example accepted_stage_witness :
+  stage1_frag (TExp (awf_ctx 2) (TImp (mkTag Appl false 70) TBits)) = true
+  /\ decode BER (Some (TExp (awf_ctx 2) (TImp (mkTag Appl false 70) TBits))) [162;128; 127;70;128; 3;2;4;160; 3;1;0; 0;0; 0;0]
+     = Ok (DV (TExp (awf_ctx 2) (TImp (mkTag Appl false 70) TBits)) (VBits [true; false; true; false]), [])
+  /\ stage2_frag (TSeqOf (TImp (awf_ctx 0) (TSetOf TInt))) = true
+  /\ decode CER (Some (TSeqOf (TImp (awf_ctx 0) (TSetOf TInt)))) [48;128; 160;6;2;1;2;2;1;1; 160;128;0;0; 0;0]
+     = Ok (DV (TSeqOf (TImp (awf_ctx 0) (TSetOf TInt))) (VList [VList [VInt 2; VInt 1]; VList []]), [])
+  /\ stage3_frag (TSeq [(Opt, TInt); (Def (VBool false), TBool); (Req, TOcts)]) = true
+  /\ decode DER (Some (TSeq [(Opt, TInt); (Def (VBool false), TBool); (Req, TOcts)])) [48;5; 1;1;0; 4;0]
+     = Ok (DV (TSeq [(Opt, TInt); (Def (VBool false), TBool); (Req, TOcts)]) (VRec [None; Some (VBool false); Some (VOcts [])]), []).
+Proof. repeat split; vm_compute; reflexivity. Qed.
+
+(* ---------------- what lies outside the fragment, and why: accepted, yet ill-formed ---------------- *)
+
+(* D1. a tagged CHOICE in the indefinite form with nothing inside (a0 80 00 00) is accepted and a CHOICE
+   object without a value is returned; the same codec's encoder refuses it ('Component not chosen') *)
+Example valueless_tagged_choice_accepted :
+  let T := TExp (awf_ctx 0) (TChoice [TInt; TOcts]) in
+  frag T = true
+  /\ decode BER (Some T) [160;128;0;0] = Ok (DV T (VChoice 2 VNull), [])
+  /\ decode CER (Some T) [160;128;0;0] = Ok (DV T (VChoice 2 VNull), [])
+  /\ val_of T (VChoice 2 VNull) = false
+  /\ encode BER true 0 T (VChoice 2 VNull) = Err EMalformed
+  /\ decode DER (Some T) [160;128;0;0] = Err EMalformed.
+Proof. repeat split; vm_compute; reflexivity. Qed.
+
+(* D2. a tagged CHOICE in the indefinite form holding two alternatives is accepted; the last one wins *)
+Example two_alternatives_accepted :
+  let T := TExp (awf_ctx 0) (TChoice [TInt; TOcts]) in
+  decode BER (Some T) [160;128; 2;1;5; 4;1;7; 0;0] = Ok (DV T (VChoice 1 (VOcts [7])), []).
+Proof. vm_compute; reflexivity. Qed.
+
+(* D3. an untagged CHOICE reaching an untagged ANY, as an OPTIONAL member, a SET member or a nested
+   alternative: the tag map's catch-all entry hands out the ANY type, so the member holds an ANY value
+   where a CHOICE value belongs *)
+Example any_in_choice_member_misplaced :
+  let T := TSeq [(Opt, TChoice [TAny]); (Req, TInt)] in
+  let U := TSet [(Req, TChoice [TAny]); (Req, TInt)] in
+  frag T = false /\ frag U = false
+  /\ decode BER (Some T) [48;6; 4;1;9; 2;1;5] = Ok (DV T (VRec [Some (VAny [4;1;9]); Some (VInt 5)]), [])
+  /\ val_of T (VRec [Some (VAny [4;1;9]); Some (VInt 5)]) = false
+  /\ decode DER (Some U) [49;6; 4;1;9; 2;1;5] = Ok (DV U (VRec [Some (VAny [4;1;9]); Some (VInt 5)]), [])
+  /\ val_of U (VRec [Some (VAny [4;1;9]); Some (VInt 5)]) = false.
+Proof. repeat split; vm_compute; reflexivity. Qed.
